@@ -425,7 +425,7 @@ func TestKnown(t *testing.T)  { kit.RunKnown(t) }
 func TestReplay(t *testing.T) { kit.RunReplay(t) }
 
 func TestFootnotes(t *testing.T) {
-	kit.Rapid(t, "footnotes", 200000, 2000000, func(t *rapid.T) {
+	kit.Rapid(t, "footnotes", 200000, 8000000, func(t *rapid.T) {
 		cfg := gen.DrawConfig(t, gen.ConfigOpts{SafeOnly: true})
 		cfg.Footnote = true
 		if rapid.Bool().Draw(t, "table") && !cfg.GFM {
